@@ -27,6 +27,7 @@ extern "C" int LLVMFuzzerTestOneInput(const uint8_t *data, size_t size) {
 	Recipe r = draw_recipe(c, maxlen, g.lz.dict_size);
 	if (sizeclass >= 235 && sizeclass < 250 && !g.use_preset && g.lz.dict_size <= (1u << 16) && r.len < (600u << 10)) r.len = (600u << 10) + (r.len & 0xFFFFF); // window slides: > 1.5*dict + 0.5 MiB
 	std::vector<uint8_t> in = expand(r);
+	if (!g.pdict.empty() && c.rare(140) && ec::input_from_pdict_tail(c, g, in, 1u << 15)) { r.kind = RK_LITERAL; r.len = (uint32_t)in.size(); r.seed = hash_bytes(in.data(), in.size()); count("input_from_preset_dict_tail"); }
 	g.prepare_for_len(in.size()); ec::govern_cost(g, in.size());
 	drv::Schedule esch = drv::draw_schedule(c, true), dsch = drv::draw_schedule(c, true);
 	const bool micro = g.entry == ec::E_MICROLZMA;
